@@ -1,7 +1,9 @@
 package main
 
 // paging extractor (C02, C19): reads `scanner.setPaging`, the `maxResults` computation and the
-// eviction test of the sorting scanners in boltz/query_scanners.go and objectz/object_store.go.
+// eviction test of the sorting scanners in boltz/query_scanners.go and objectz/object_store.go, and the
+// branch chain of the float64 sort comparators (boltz/query_sort.go, objectz/object_store_sort.go: is the
+// NaN branch of 1532996 there?).
 //
 // Writes facts/paging.json (normalised source text of those pieces + the derived booleans) and
 // Generated/PagingFacts.lean (the booleans, which parameterise the Lean model's arithmetic).
@@ -31,6 +33,81 @@ type pagingPkgFacts struct {
 	OverflowGuard     bool     `json:"overflowGuard"`
 	EvictStrict       bool     `json:"evictStrict"`
 	Note              string   `json:"note,omitempty"`
+	// the float64 sort comparator of the package (query_sort.go / object_store_sort.go)
+	FloatCmp floatCmpFacts `json:"floatCmp"`
+}
+
+// floatCmpFacts: the if / else-if chain of the float64 symbol comparator on its two keys.
+type floatCmpFacts struct {
+	File       string   `json:"file"`
+	Chain      []string `json:"chain"` // condition: body, one entry per branch
+	Recognised bool     `json:"recognised"`
+	NanFirst   bool     `json:"nanFirst"` // the NaN branch (NaN before every number, NaNs tie) is present
+	Note       string   `json:"note,omitempty"`
+}
+
+var floatCmpOld = []string{
+	"s1 == nil: { if s2 != nil { result = -1 } }",
+	"s2 == nil: { result = 1 }",
+	"*s1 < *s2: { result = -1 }",
+	"*s1 > *s2: { result = 1 }",
+}
+
+const floatCmpNaNBranch = "*s1 != *s1 || *s2 != *s2: { if *s1 == *s1 { result = 1 } else if *s2 == *s2 { result = -1 } }"
+
+// analyseFloatCmp reads method `method` of receiver type `recv` in `path`: `result := 0`, then ONE if / else-if chain
+// over s1, s2, then the direction flip.
+func analyseFloatCmp(path, recv, method string) (res floatCmpFacts) {
+	res.File = filepath.Base(filepath.Dir(path)) + "/" + filepath.Base(path)
+	defer func() {
+		if r := recover(); r != nil {
+			res.Recognised = false
+			res.Note = fmt.Sprint("extractor panic: ", r)
+		}
+	}()
+	fset := token.NewFileSet()
+	file, err := parser.ParseFile(fset, path, nil, 0)
+	if err != nil {
+		res.Note = "parse error: " + err.Error()
+		return
+	}
+	for _, d := range file.Decls {
+		fd, ok := d.(*ast.FuncDecl)
+		if !ok || fd.Body == nil || fd.Name.Name != method || pagingRecvTypeName(fd) != recv {
+			continue
+		}
+		var rest []string
+		for _, st := range fd.Body.List {
+			is, ok := st.(*ast.IfStmt)
+			if !ok || len(res.Chain) > 0 {
+				rest = append(rest, pagingNodeText(fset, st))
+				continue
+			}
+			for cur := is; cur != nil; {
+				// strip the comments inside the bodies: print the statements only
+				res.Chain = append(res.Chain, pagingNodeText(fset, cur.Cond)+": { "+strings.Join(pagingStmtTexts(fset, cur.Body.List), "; ")+" }")
+				next, _ := cur.Else.(*ast.IfStmt)
+				if cur.Else != nil && next == nil {
+					res.Chain = append(res.Chain, "else: "+pagingNodeText(fset, cur.Else))
+				}
+				cur = next
+			}
+		}
+		frameOk := len(rest) == 5 && strings.HasPrefix(rest[0], "s1 := ") && strings.HasPrefix(rest[1], "s2 := ") &&
+			rest[2] == "result := 0" && rest[3] == "if c.forward { return result }" && rest[4] == "return -result"
+		withNaN := append(append(append([]string{}, floatCmpOld[:2]...), floatCmpNaNBranch), floatCmpOld[2:]...)
+		switch {
+		case frameOk && pagingSameStrings(res.Chain, withNaN):
+			res.Recognised, res.NanFirst = true, true
+		case frameOk && pagingSameStrings(res.Chain, floatCmpOld):
+			res.Recognised, res.NanFirst = true, false
+		default:
+			res.Note = fmt.Sprintf("unrecognised comparator shape (frame ok = %v)", frameOk)
+		}
+		return
+	}
+	res.Note = "method not found"
+	return
 }
 
 func pagingNodeText(fset *token.FileSet, n ast.Node) string {
@@ -187,6 +264,10 @@ func analysePagingFile(path, scannerType, scanFunc string) (res pagingPkgFacts) 
 	return
 }
 
+func leanFloatCmpFacts(f floatCmpFacts) string {
+	return fmt.Sprintf("⟨%v, %v⟩", f.Recognised, f.NanFirst)
+}
+
 func leanPagingFacts(f pagingPkgFacts) string {
 	return fmt.Sprintf("⟨%v, %v, %v, %v⟩", f.Recognised, f.ClampNegativeSkip, f.OverflowGuard, f.EvictStrict)
 }
@@ -194,6 +275,8 @@ func leanPagingFacts(f pagingPkgFacts) string {
 func extractPaging(repo, gen, facts string) {
 	boltzF := analysePagingFile(filepath.Join(repo, "boltz", "query_scanners.go"), "sortingScanner", "ScanCursor")
 	objF := analysePagingFile(filepath.Join(repo, "objectz", "object_store.go"), "memSortingScanner", "Scan")
+	boltzF.FloatCmp = analyseFloatCmp(filepath.Join(repo, "boltz", "query_sort.go"), "float64SymbolComparator", "Compare")
+	objF.FloatCmp = analyseFloatCmp(filepath.Join(repo, "objectz", "object_store_sort.go"), "objectFloat64SymbolComparator", "compare")
 	js, _ := json.MarshalIndent(map[string]pagingPkgFacts{"boltz": boltzF, "objectz": objF}, "", " ")
 	writeIfChanged(filepath.Join(facts, "paging.json"), string(js)+"\n")
 
@@ -203,6 +286,8 @@ func extractPaging(repo, gen, facts string) {
 	b.WriteString("namespace StorageModel.Generated\nopen StorageModel.Query\n\n")
 	b.WriteString("def boltzPaging : PagingFacts := " + leanPagingFacts(boltzF) + "\n")
 	b.WriteString("def objectzPaging : PagingFacts := " + leanPagingFacts(objF) + "\n")
+	b.WriteString("def boltzFloatCmp : FloatCmpFacts := " + leanFloatCmpFacts(boltzF.FloatCmp) + "\n")
+	b.WriteString("def objectzFloatCmp : FloatCmpFacts := " + leanFloatCmpFacts(objF.FloatCmp) + "\n")
 	b.WriteString("\nend StorageModel.Generated\n")
 	writeIfChanged(filepath.Join(gen, "PagingFacts.lean"), b.String())
 }
